@@ -105,7 +105,15 @@ def _run(mod, pid, tier, t0):
 
     # 1. regenerate the source-derived part of the model
     gen_status = []
-    for g in getattr(mod, "translators", lambda: [])():
+    try:
+        gens = list(getattr(mod, "translators", lambda: [])())
+    except (common.LeanError, OSError, TimeoutError):
+        raise
+    except Exception as ex:  # a translator that CRASHES on the current source cannot tie the model to it: a broken obligation
+        tb = traceback.extract_tb(ex.__traceback__)
+        gens = [(f"translator-crashed:{os.path.basename(tb[-1].filename)}", "broken",
+                 f"{type(ex).__name__}: {ex} at {os.path.basename(tb[-1].filename)}:{tb[-1].lineno} — the source no longer has a shape the translator reads")]
+    for g in gens:
         # g = (name, status, detail) with status ok | unavailable | broken
         gen_status.append({"translator": g[0], "status": g[1], "detail": str(g[2])[:300]})
         if g[1] == "broken":
